@@ -169,6 +169,63 @@ def default_models():
                 return SArr(n, lambda k: one(_elem(a, k), _elem(b, k)))
             return one(a, b)
         return f
+    def _clip(I, a, lo, hi):
+        return _minimum('min')(I, _minimum('max')(I, a, lo), hi)
+    reg('numpy.clip', _clip)
+
+    def _divide(I, a, b, out=None, where=None):
+        """np.divide(a, b, out=o, where=w): a/b where w holds, o elsewhere."""
+        from .arrays import _elem, _ite, _as_bool, broadcast_len, _snap
+        if where is None:
+            return I.binop('Div', a, b)
+        a, b, out, where = _snap(a), _snap(b), _snap(out), _snap(where)
+        n = broadcast_len(I, a, b)
+        k = I.ctx.fresh('k', z3.IntSort())
+        I.ctx.assume(z3.And(k >= 0, k < to_z3(n)))
+        wk = _as_bool(_elem(where, k))
+        ok, _ = I.try_pure(lambda: I.binop('Div', _elem(a, k), _elem(b, k)), assuming=wk) if not isinstance(wk, bool) else (True, None)
+        if not ok:
+            I.raise_('NonFiniteResult', 'np.divide: division undefined where the mask holds')
+
+        def fn(kk):
+            w = _as_bool(_elem(where, kk))
+            x, y = _elem(a, kk), _elem(b, kk)
+            q = to_real(x) / to_real(y)
+            return _ite(w, q, _elem(out, kk))
+        return SArr(n, fn)
+    reg('numpy.divide', _divide)
+
+    def _cumtrapz(I, y, x=None, dx=1, axis=-1, initial=None):
+        """scipy.integrate.cumulative_trapezoid(y, dx=dx): r[j] = sum_{i<=j} dx*(y[i]+y[i+1])/2, length n-1 (assumed
+        contract).  For a symbolic length the result is a prefix function C with C(j+1) = C(j) + dx*(y[j+1]+y[j+2])/2,
+        instantiated wherever an element is read."""
+        if x is not None or initial is not None:
+            raise Unsupported('cumulative_trapezoid with x= / initial=')
+        y = y.snapshot()
+        n = y.length
+        if isinstance(n, int):
+            out, acc = [], 0
+            for j in range(n - 1):
+                acc = I.binop('Add', acc, I.binop('Div', I.binop('Mult', dx, I.binop('Add', y.at(j), y.at(j + 1))), 2))
+                out.append(acc)
+            return SArr.from_list(out)
+        I.hooks['cumtrapz_count'] = I.hooks.get('cumtrapz_count', 0) + 1
+        C = z3.Function(f'cumtrapz_{I.hooks["cumtrapz_count"]}', z3.IntSort(), z3.RealSort())
+        dxr = to_real(dx)
+
+        def step(j):
+            return dxr * (to_real(y.at(j)) + to_real(y.at(j + 1))) / 2
+        I.ctx.axiom(C(0) == step(z3.IntVal(0)))
+
+        def fn(k):
+            kz = to_z3(k)
+            I.ctx.axiom(z3.Implies(kz >= 1, C(kz) == C(kz - 1) + step(kz)))
+            I.ctx.axiom(z3.Implies(kz >= 0, C(kz + 1) == C(kz) + step(kz + 1)))
+            return C(kz)
+        r = SArr(z3.simplify(to_z3(n) - 1), fn)
+        r.cumtrapz = (C, step)
+        return r
+    reg('scipy.integrate.cumulative_trapezoid', _cumtrapz)
     reg('numpy.minimum', _minimum('min'))
     reg('numpy.maximum', _minimum('max'))
 
@@ -310,6 +367,8 @@ def default_models():
     reg('numpy.ones_like', lambda I, a, **kw: SArr(I.len_(a), lambda k: Fraction(1)))
     reg('numpy.full_like', lambda I, a, v, **kw: SArr(I.len_(a), lambda k: v))
     reg('numpy.empty_like', lambda I, a, **kw: SArr(I.len_(a), lambda k: Fraction(0)))
+    reg('numpy.min', lambda I, a, **kw: I.builtins['min'].fn(a))
+    reg('numpy.max', lambda I, a, **kw: I.builtins['max'].fn(a))
     reg('numpy.sum', lambda I, a, **kw: array_sum(I, a) if isinstance(a, SArr) else I.builtins['sum'].fn(a))
     def _np_all(I, a):
         if isinstance(a, SArr):
